@@ -136,7 +136,11 @@ func genOps(b bias, guard bool) []mach.Op {
 	case r < b.fail*0.8:
 		ops = append(ops, mach.Op{Name: "emitbad"})
 	case r < b.fail*0.8+b.exotic:
-		ops = append(ops, mach.Op{Name: pickS([]string{"retgetter", "retcyclic", "throwobj", "retcyclicobj", "retnan"})})
+		if p(0.03) {
+			ops = append(ops, mach.Op{Name: "matchdeep"}) // (slow: more than a second each)
+		} else {
+			ops = append(ops, mach.Op{Name: pickS([]string{"retgetter", "retcyclic", "throwobj", "retcyclicobj", "retnan"})})
+		}
 	case r < b.fail*0.8+b.exotic+b.loop:
 		ops = append(ops, mach.Op{Name: "loop"})
 	case r < b.fail*0.8+b.exotic+b.loop+0.12:
